@@ -93,6 +93,18 @@
     table's columns by `Spec.execAll_wf`; no PRIMARY KEY statement by `equal_primary_key_untouched`; the key names
     columns of its table in every reachable schema, `Spec.execAll_pkin`, so no key column is dropped.)
 
+  * `schema_on_reference_engine` — **the whole up migration on the reference engine**: for two scripts without foreign
+    keys, inline PRIMARY KEY and COMMENT options, whose common tables keep the relative order of their common columns
+    and their primary key and are outside the recorded region `index-redefined-old-columns-dropped`, and without a
+    table named like the bookkeeping table: `Diff` and `MigrationUp` return, and the printed migration — CREATE TABLE
+    with its indexes and key for a table only the new side has (`created_table_spec`), the column and index statements
+    of a table both sides have (`table_spec_up_any`), DROP TABLE for a table only the old side has —, executed statement
+    by statement by `Spec.execAll` on the old schema (referential checks aside), is well-formed at every step and ends
+    in a schema `DB.equiv` to the new one.  This is the "turns old into new" half of `Statement_partial` on that scope,
+    for schemas of any size.  (Proofs/SpecSchema: `migrate_groups` — the printer's output is the concatenation of the
+    per-table groups —, `execAll_groups` — each group works on its own table whatever the others did, a frame argument
+    over `DB.find` —, and the final comparison of the two table sets.)
+
   * `equal_primary_key_untouched` — likewise an unchanged primary key declared at table level gets no ADD / DROP
     PRIMARY KEY, whatever dropped-column list the index walk is called with (reader fidelity on table-level keys,
     C05.primary_key_table_level).
@@ -103,9 +115,9 @@
     have gets neither —, which turns the old set of tables into the new one (Proofs/TablesClause: what the two table
     loops of `Migration.Diff` leave, and the table-level content of each printer).
 
-  Missing for `Statement_partial`: a changed primary key (recorded finding `pk-changed`), COMMENT options, and the same
-  lift to `Spec.exec` for the foreign-key and table clauses (proved on their abstract machines) and for all tables at
-  once.  Those parts are covered by the correspondence run and
+  Missing for `Statement_partial`: a changed primary key (recorded finding `pk-changed`), COMMENT options, foreign keys on
+  `Spec.exec` (proved on their abstract machine; their statement order is the recorded finding `referential-ordering`),
+  the `allJustified` half beyond `equal_column_untouched` / `equal_primary_key_untouched`, the other dialects.  Those parts are covered by the correspondence run and
   by the executable predicate `Spec.c01` evaluated on the implementation's printed migration on every check.
 -/
 import SqlizeModel.Abs.Columns
@@ -117,6 +129,7 @@ import SqlizeModel.Proofs.Untouched
 import SqlizeModel.Proofs.Changed
 import SqlizeModel.Proofs.SpecColsDb
 import SqlizeModel.Proofs.SpecTable
+import SqlizeModel.Proofs.SpecSchema
 import SqlizeModel.Proofs.TablesClause
 import SqlizeModel.Impl.Api
 import SqlizeModel.Spec.Scope
@@ -481,5 +494,49 @@ example : ∃ d dbO dbN, loadAndDiff {} exOldD exNewD = .ok d ∧ execAll true [
       | .error _ => none)) = [some true] :=
   ⟨_, _, _, by rfl, by rfl, by rfl, by decide⟩
 
+
+/-- the whole up migration on the reference engine: well-formed at every step, and the result is the new schema -/
+theorem schema_on_reference_engine (g : Globals) (hg : g.dialect = .mysql) (hio : g.ignoreOrder = false) (rc : Bool)
+    (old new : List Stmt) (dbO dbN : DB) (ho : old.all Stmt.elemSafe = true) (hn : new.all Stmt.elemSafe = true)
+    (hpo : old.all Stmt.plainOpts = true) (hpn : new.all Stmt.plainOpts = true)
+    (heo : execAll rc [] old = some dbO) (hen : execAll rc [] new = some dbN)
+    (hdef : ∀ tb ∈ dbO ++ dbN, tb.name ≠ Migration.defaultMigrationTable)
+    (hnofk : ∀ tb ∈ dbO ++ dbN, tb.fks = [])
+    (hncm : ∀ tb ∈ dbO ++ dbN, ∀ c ∈ tb.cols, ∀ k ∈ c.opts, k.noComment = true)
+    (hboth : ∀ tbO ∈ dbO, ∀ tbN ∈ dbN, tbO.name = tbN.name →
+      Abs.OrderCompatible tbN.colNames tbO.colNames ∧ (∀ n ∈ tbN.colNames ++ tbO.colNames, n ≠ "") ∧ tbO.pk = tbN.pk ∧
+      (∀ dc : List String, (∀ c ∈ dc, c ∉ tbN.colNames) →
+        ∀ s ∈ tbN.idxs, ∀ o ∈ tbO.idxs, o.name = s.name → o ≠ s → ∃ c ∈ o.cols, c ∉ dc)) :
+    ∃ up, modelUp g old new = .ok up ∧ ∃ db', execAll false dbO up = some db' ∧ db'.equiv dbN = true := by
+  obtain ⟨d, out, hd, hU, db', he, heq⟩ := schema_spec_up g hg hio rc old new dbO dbN ho hn hpo hpn heo hen hdef hnofk hncm hboth
+  refine ⟨out.flatten, ?_, db', he, heq⟩
+  unfold modelUp
+  simp only [hd, hU, bind, Except.bind, pure, Except.pure]
+
+-- non-vacuity of `schema_on_reference_engine`: a table created with a key and two indexes, a table dropped, a table kept
+-- as it is, and a table whose columns and indexes change (a column dropped with its index, one retyped, one added in
+-- front, an index created)
+def exOldW : List Stmt :=
+  [.createTable "gone" 0 [{ name := "g", typ := "int(11)" }] [],
+   .createTable "keep" 0 [{ name := "k", typ := "int(11)" }] ["k"],
+   .createTable "t" 0 [{ name := "a", typ := "int(11)", opts := [{ kind := .notNull }] }, { name := "b", typ := "int(11)" },
+                       { name := "c", typ := "varchar(64)" }] [],
+   .createIndex "t" "i_b" ["b"] false "",
+   .createIndex "t" "i_c" ["c"] true ""]
+def exNewW : List Stmt :=
+  [.createTable "fresh" 0 [{ name := "id", typ := "int(11)", opts := [{ kind := .notNull }] }, { name := "n", typ := "text" },
+                           { name := "m", typ := "int(11)" }] ["id"],
+   .createIndex "fresh" "i_n" ["n"] false "",
+   .createIndex "fresh" "i_nm" ["m", "id"] true "HASH",
+   .createTable "keep" 0 [{ name := "k", typ := "int(11)" }] ["k"],
+   .createTable "t" 0 [{ name := "z", typ := "text" }, { name := "a", typ := "int(11)", opts := [{ kind := .notNull }] },
+                       { name := "c", typ := "varchar(255)" }] [],
+   .createIndex "t" "i_c" ["c"] true "",
+   .createIndex "t" "i_z" ["z", "a"] false ""]
+example : exOldW.all Stmt.elemSafe = true ∧ exNewW.all Stmt.elemSafe = true ∧ exOldW.all Stmt.plainOpts = true ∧
+    exNewW.all Stmt.plainOpts = true ∧ (execAll true [] exOldW).isSome = true ∧ (execAll true [] exNewW).isSome = true := by decide
+example : ∃ up dbO dbN, modelUp {} exOldW exNewW = .ok up ∧ execAll true [] exOldW = some dbO ∧ execAll true [] exNewW = some dbN ∧
+    up.length = 9 ∧ (execAll false dbO up).map (fun db' => db'.equiv dbN) = some true :=
+  ⟨_, _, _, by rfl, by rfl, by rfl, by decide, by decide⟩
 
 end Sqlize.C01
